@@ -436,3 +436,40 @@ M("C08", "hash-compressed-keys", "admin/attestation_utils.py",
 M("C08", "iteration-little-endian", "admin/verify_ledger_attestation.py",
   "    signer_iteration = int.from_bytes(signer_iteration, byteorder='big', signed=False)",
   "    signer_iteration = int.from_bytes(signer_iteration, byteorder='little', signed=False)")
+
+# ---- C15
+M("C15", "ui-signed-by-device", "admin/ledger_attestation.py",
+  "            \"signature\": ui_attestation[\"signature\"],\n            \"signed_by\": \"attestation\",",
+  "            \"signature\": ui_attestation[\"signature\"],\n            \"signed_by\": \"device\",")
+M("C15", "ui-tweak-from-signer", "admin/ledger_attestation.py",
+  "            \"tweak\": ui_attestation[\"app_hash\"],",
+  "            \"tweak\": powhsm_attestation[\"app_hash\"],")
+M("C15", "envelope-certs-swapped", "admin/sgx_attestation.py",
+  "            \"message\": envelope.qe_cert_data.certs[0],\n            \"signed_by\": \"platform_ca\",",
+  "            \"message\": envelope.qe_cert_data.certs[1],\n            \"signed_by\": \"platform_ca\",")
+M("C15", "legacy-offset-off-by-one", "ledger/hsm2dongle_cmds/powhsm_attestation.py",
+  "                    msgoffset = 0\n", "                    msgoffset = 1\n")
+M("C15", "ui-message-page-flag-included", "ledger/hsm2dongle.py",
+  "            message += response[self.OFF.DATA + 1:]\n",
+  "            message += response[self.OFF.DATA + (1 if page < 3 else 0):]\n")
+M("C15", "qe-signature-from-quote-signature", "admin/sgx_attestation.py",
+  "    qe_rb_signature = ecdsa.util.sigdecode_string(\n        envelope.quote_auth_data.qe_report_body_signature.r +\n        envelope.quote_auth_data.qe_report_body_signature.s,",
+  "    qe_rb_signature = ecdsa.util.sigdecode_string(\n        envelope.quote_auth_data.qe_report_body_signature.r +\n        envelope.quote_auth_data.signature.s,")
+M("C15", "auth-data-truncated-255", "admin/sgx_attestation.py",
+  "            \"auth_data\": envelope.qe_auth_data.data.hex(),",
+  "            \"auth_data\": envelope.qe_auth_data.data[:255].hex(),")
+M("C15", "health-check-dropped", "admin/ledger_attestation.py",
+  "        if powhsm_attestation[\"message\"] != powhsm_attestation[\"envelope\"]:",
+  "        if False:")
+M("C15", "envelope-tail-check-dropped", "sgx/envelope.py",
+  "        if envelope_bytes[offset:] != custom_message_bytes:",
+  "        if len(envelope_bytes[offset:]) != len(custom_message_bytes):")
+M("C15", "pubkeys-json-compressed", "admin/pubkeys.py",
+  "                json_dict[str(path)] = pk.to_string(\"uncompressed\").hex()",
+  "                json_dict[str(path)] = pk.to_string(\"compressed\").hex() if path_name != 'btc' else pk.to_string(\"uncompressed\").hex()")
+M("C15", "device-message-role-dropped", "admin/dongle_admin.py",
+  "        signed_data = bytes([self.ROLE.DEVICE]) + cert_header + dev_key_pub\n",
+  "        signed_data = cert_header + dev_key_pub\n")
+M("C15", "powhsm-more-flag-inverted-last-page", "ledger/hsm2dongle_cmds/powhsm_attestation.py",
+  "                bufs[name] += result[self.Offset.DATA+msgoffset:]\n",
+  "                bufs[name] += result[self.Offset.DATA+msgoffset:] if page < 2 else result[self.Offset.DATA+msgoffset+1:]\n")
